@@ -8,7 +8,16 @@ use std::process::{Child, Command, Stdio};
 use std::sync::atomic::AtomicU64;
 use std::time::{Duration, Instant};
 
+thread_local! {
+    /// when set, `repo_bin` of this thread resolves in this directory (a build of the repository with
+    /// other Cargo features)
+    pub static BIN_DIR_OVERRIDE: std::cell::RefCell<Option<PathBuf>> = std::cell::RefCell::new(None);
+}
+
 pub fn repo_bin(name: &str) -> PathBuf {
+    if let Some(d) = BIN_DIR_OVERRIDE.with(|o| o.borrow().clone()) {
+        return d.join(name);
+    }
     let dir = std::env::var("VERIF_REPO_BIN").unwrap_or_else(|_| format!("{}/target/repo/debug", crate::ev::verif_dir()));
     PathBuf::from(dir).join(name)
 }
@@ -668,7 +677,7 @@ pub const HTTP_RESPONSE: &str = "HTTP/1.1 200 OK\nContent-Length: 0\nConnection:
 pub fn health_probe(port: u16, timeout: Duration) -> Result<Vec<u8>, String> {
     use std::net::TcpStream;
     let addr: SocketAddr = format!("127.0.0.1:{}", port).parse().unwrap();
-    let mut s = TcpStream::connect_timeout(&addr, timeout).map_err(|e| format!("connect: {}", e))?;
+    let mut s = crate::util::tcp_connect(&addr, timeout).map_err(|e| format!("connect: {}", e))?;
     s.set_read_timeout(Some(timeout)).unwrap();
     let mut out = vec![];
     let mut buf = [0u8; 256];
@@ -707,7 +716,8 @@ pub fn c03_real_server_part(ctx: &Ctx, classes: &std::sync::Mutex<std::collectio
         if sp.try_status().is_some() {
             return Err(format!("real server did not start: {}", sp.stderr()));
         }
-        for proto in ["0", "13"] {
+        let mut server_gone = false;
+        'protos: for proto in ["0", "13"] {
             for &k in &ks {
                 for key in [None, Some(rtref::crypto::hex(&lt_pk)), Some(rtref::crypto::base64(&lt_pk, false, true))] {
                     let kstr = k.to_string();
@@ -734,6 +744,11 @@ pub fn c03_real_server_part(ctx: &Ctx, classes: &std::sync::Mutex<std::collectio
                     let vclass = format!("{}{}{}", if proto == "0" { "classic" } else { "ietf13" }, if k > 1 { "/n>=2" } else { "/n=1" }, if workers > 1 { "/several-workers" } else { "" });
                     if ex.code != Some(0) || times.len() != k {
                         ctx.violation("honest-reply-rejected", if ex.stderr.contains("merkle") { "merkle" } else { "other" }, &vclass, detail(format!("{} of {} times printed", times.len(), k)));
+                        if sp.try_status().is_some() {
+                            // the server is gone: every further run would only wait out the client's timeout
+                            server_gone = true;
+                            break 'protos;
+                        }
                         continue;
                     }
                     // every printed time lies within the harness clock bracket (+/- 1 s for rounding)
@@ -747,8 +762,118 @@ pub fn c03_real_server_part(ctx: &Ctx, classes: &std::sync::Mutex<std::collectio
                 }
             }
         }
+        let _ = server_gone;
         sp.kill();
     }
+    Ok(n)
+}
+
+/// C03 part 3: the real server as honest peer when the client's requests share a batch with other
+/// traffic. A forwarding proxy takes the client's -n k requests, stops the server process (SIGSTOP),
+/// queues them on its socket together with "company" (a request of the other protocol, a junk
+/// datagram — in front of, between or behind them), lets it continue (SIGCONT) and hands the
+/// server's replies to the client. The client must accept every one.
+pub fn c03_mixed_company_part(ctx: &Ctx, classes: &std::sync::Mutex<std::collections::BTreeMap<String, u64>>) -> Result<u64, String> {
+    use serde_json::json;
+    let lt_pk = rtref::crypto::public_key(&rtref::crypto::unhex(BASE_SEED_HEX).try_into().unwrap());
+    let (mut sp, port) = start_serving(
+        &|port| {
+            let mut w = Written::base(port);
+            w.set("num_workers", "1");
+            w.set("batch_size", "64");
+            w
+        },
+        Source::File,
+        1,
+        Duration::from_secs(10),
+    )?;
+    if sp.try_status().is_some() {
+        return Err(format!("real server did not start: {}", sp.stderr()));
+    }
+    let server: SocketAddr = format!("127.0.0.1:{}", port).parse().unwrap();
+    let pid = sp.pid;
+    let stopped = |want: bool| {
+        let t0 = std::time::Instant::now();
+        while t0.elapsed() < Duration::from_millis(500) {
+            let st = std::fs::read_to_string(format!("/proc/{}/stat", pid)).ok().and_then(|s| s.rsplit(')').next().map(|r| r.trim_start().starts_with('T'))).unwrap_or(false);
+            if st == want {
+                return;
+            }
+            std::thread::sleep(Duration::from_millis(2));
+        }
+    };
+    let mut n = 0u64;
+    let ks: Vec<usize> = ctx.tier.pick(vec![2, 3], vec![1, 2, 3, 5, 8]);
+    for proto in ["0", "13"] {
+        let (mine, other) = if proto == "0" { (rtref::Version::Classic, rtref::Version::Ietf13) } else { (rtref::Version::Ietf13, rtref::Version::Classic) };
+        for &k in &ks {
+            for company in ["other-protocol-first", "junk-first", "other-protocol-between", "junk-between", "other-protocol-last", "both-first"] {
+                let kstr = k.to_string();
+                let keyhex = rtref::crypto::hex(&lt_pk);
+                let args = ["-z", "-v", "-f", "%s %f", "-p", proto, "-n", kstr.as_str(), "-t", "5", "-k", keyhex.as_str()];
+                let mut upstream_err: Option<String> = None;
+                let mut forwarded: Vec<(Vec<u8>, Vec<u8>)> = vec![];
+                let run = run_client(&args, k, |reqs| {
+                    // the datagrams in the order they are queued on the server's socket; None = company
+                    let other_req = rtref::responder::std_request(other, &crate::inproc::nonce(0xc03_7000 + n, other.nonce_len()));
+                    let junk = vec![0x5au8; 1024];
+                    let mut order: Vec<(Option<usize>, Vec<u8>)> = reqs.iter().enumerate().map(|(i, r)| (Some(i), r.0.clone())).collect();
+                    let mid = (order.len() + 1) / 2;
+                    match company {
+                        "other-protocol-first" => order.insert(0, (None, other_req)),
+                        "junk-first" => order.insert(0, (None, junk)),
+                        "other-protocol-between" => order.insert(mid, (None, other_req)),
+                        "junk-between" => order.insert(mid, (None, junk)),
+                        "other-protocol-last" => order.push((None, other_req)),
+                        _ => {
+                            order.insert(0, (None, junk));
+                            order.insert(0, (None, other_req));
+                        }
+                    }
+                    let socks: Vec<UdpSocket> = order.iter().map(|_| UdpSocket::bind("127.0.0.1:0").unwrap()).collect();
+                    unsafe {
+                        libc::kill(pid as i32, libc::SIGSTOP);
+                    }
+                    stopped(true);
+                    for (s, (_, d)) in socks.iter().zip(&order) {
+                        s.set_read_timeout(Some(Duration::from_secs(4))).unwrap();
+                        let _ = s.send_to(d, server);
+                    }
+                    unsafe {
+                        libc::kill(pid as i32, libc::SIGCONT);
+                    }
+                    let mut out: Vec<Vec<Vec<u8>>> = vec![vec![]; reqs.len()];
+                    let mut buf = [0u8; 4096];
+                    for (s, (who, d)) in socks.iter().zip(&order) {
+                        if let Some(i) = who {
+                            match s.recv_from(&mut buf) {
+                                Ok((l, _)) => {
+                                    forwarded.push((d.clone(), buf[..l].to_vec()));
+                                    out[*i].push(buf[..l].to_vec());
+                                }
+                                Err(e) => upstream_err = Some(format!("the real server left request {} of the client unanswered ({})", i, e)),
+                            }
+                        }
+                    }
+                    out
+                })?;
+                n += 1;
+                let times = printed_times(&run.exit.stdout);
+                let ok = run.exit.code == Some(0) && times.len() == k;
+                *classes.lock().unwrap().entry(format!("real-mixed-company:p{}:{}:{}", proto, company, if ok { "accepted" } else { "rejected" })).or_insert(0) += 1;
+                if !ok {
+                    let verdicts: Vec<String> = forwarded.iter().map(|(rq, rp)| match rtref::verifier::authentic(rp, rq, mine, Some(&lt_pk), rtref::verifier::SERVER_VIEW) { Ok(_) => "authentic".to_string(), Err(c) => format!("not authentic: {}", c) }).collect();
+                    ctx.violation("honest-reply-rejected", if run.exit.stderr.contains("merkle") { "merkle" } else { "other" }, &format!("{}/mixed-company", if proto == "0" { "classic" } else { "ietf13" }),
+                        json!({"kind":"honest-mixed-company","peer":"real-server","version":if proto == "0" {"classic"} else {"ietf13"},"n":k,"company":company,"message":format!("{} of {} times printed; {}", times.len(), k, upstream_err.clone().unwrap_or_default()),
+                            "reference_verdict_on_the_servers_replies":verdicts,"exit":run.exit.code,"stdout":run.exit.stdout.lines().take(6).collect::<Vec<_>>(),"stderr_first":run.exit.stderr.lines().filter(|l| l.contains("panicked") || l.contains("Nonce")).take(3).collect::<Vec<_>>()}));
+                }
+                if sp.try_status().is_some() {
+                    return Ok(n);
+                }
+            }
+        }
+    }
+    sp.kill();
     Ok(n)
 }
 
